@@ -124,6 +124,8 @@ class World:
                                     "%s raised %s: %s" % (kind, type(e).__name__, str(e)[:300]), case)
 
     def _op_set_params(self, op):
+        if any(0 < abs(v) < 1e-6 for v in op["values"].values()):
+            self.rec.label("values:tiny-scale")
         names = list(op["values"])
         vals = op["values"]
         form = op["form"]
@@ -358,7 +360,11 @@ def machine(tier, rec, ctl):
                 names = list(data.draw(st.permutations(params)))
             else:
                 names = list(params)
-            vals = {p: data.draw(S.fl(0.05, 5.0)) for p in names}
+            # some histories live at a tiny parameter scale (per-capita rates of a model in absolute head counts): every
+            # value, and hence every change between two assignments, is far below 1e-8 in absolute terms
+            if not hasattr(self, "_pscale"):
+                self._pscale = data.draw(st.sampled_from([1.0, 1.0, 1.0, 1.0, 1e-9]))
+            vals = {p: S.sig(data.draw(S.fl(0.05, 5.0)) * self._pscale, 4) for p in names}
             self.do({"op": "set_params", "form": form, "values": vals})
 
         # ---- structural modifications
